@@ -25,7 +25,7 @@ def gen_cases(tier, seed):
     for i in range(n):
         cases.append({"part": "small", "shard": i, "nshards": n, "tier": tier, "seed": seed})
     for i in range(n):
-        cases.append({"part": "large", "shard": i, "seed": seed, "n": 24 if q else 60, "tier": tier})
+        cases.append({"part": "large", "shard": i, "seed": seed, "n": 24 if q else 12, "tier": tier})
     for i in range(n if q else 2 * n):
         cases.append({"part": "pipeline", "seed": seed * 613 + i, "n": 6 if q else 20})
     return cases
@@ -379,7 +379,7 @@ def summarise(agg, tier):
     q = tier == "quick"
     c = agg.counters
     return {
-        "thresholds": {"allocator_calls": 60000 if q else 700000, "sets_with_3_live": 5000 if q else 100000, "large_sets": 300 if q else 2500,
+        "thresholds": {"allocator_calls": 60000 if q else 700000, "sets_with_3_live": 5000 if q else 100000, "large_sets": 300 if q else 400,
                        "pipeline_allocator_calls": 100 if q else 2000, "hc_iterations_observed": 1000 if q else 100000},
         "distinct_nontrivial": c.get("sets_with_3_live", 0),
         "rule": "live-range sets: all ordered pairs over (10 intervals x 5 sizes x 2 alignments), ordered triples over a reduced lattice (stratified in quick, "
